@@ -393,7 +393,7 @@ class RustFile:
         if tbase != ty:
             return False
         if trait is None:
-            return tr is None
+            return True      # 'Type::name' names a method of Type in an inherent OR trait impl (ambiguity is reported by the caller)
         if tr is None:
             return False
         trbase = re.match(r'([A-Za-z0-9_:]+)', tr).group(1).split('::')[-1]
